@@ -34,7 +34,7 @@ ASSUMPTIONS = ['floating-point rounding is not modelled: every comparison is 1e-
 
 
 def generate(tier, rng):
-    n = 300 if tier != 'thorough' else 1200
+    n = 260 if tier != 'thorough' else 1000
     for i in range(n):
         yield base.gen_input(rng, exact=(i % 2 == 0), allow_maxpool=False, affine_only=(i % 8 in (2, 3)), pid=PID)
 
